@@ -23,7 +23,9 @@ structure IdemOK (S : List Row) (H : Int) (cells : List LCell) : Prop where
     (rowAt S k1).rect.minY = (rowAt S k2).rect.minY →
     (rowAt S k1).rect.maxX ≤ (rowAt S k2).rect.minX ∨ (rowAt S k2).rect.maxX ≤ (rowAt S k1).rect.minX
   seg : ∀ c ∈ cells, c.h = H ∧ 0 < c.w ∧ c.torient ≠ Orient.INVALID ∧ ∃ k, k < S.length ∧ InSeg S k c
-  order : cells.Pairwise fun c1 c2 => c1.ty = c2.ty → c1.tx + c1.w ≤ c2.tx
+  /-- the cells of one *segment* are listed left to right (cells of different segments of one y may come
+  in any order: a cell's own segment costs 0, any other segment of that y costs > 0 or has no room) -/
+  order : cells.Pairwise fun c1 c2 => ∀ k, k < S.length → InSeg S k c1 → InSeg S k c2 → c1.tx + c1.w ≤ c2.tx
 
 /-! ### list plumbing -/
 
@@ -92,18 +94,18 @@ theorem loopInv_step (S : List Row) (H : Int) (cells : List LCell) (ok : IdemOK 
   have hrows := inv.rows
   subst hrows
   obtain ⟨hH, hw, hinv, k0, hk0, hseg⟩ := ok.seg _ (cellAt_mem cells i hi)
-  -- everything already pushed at the same y lies left of the current cell
-  have hleft : ∀ k, k < a.rows.length → ∀ j ∈ a.rowCells.getD k [],
-      (rowAt a.rows k).rect.minY = (cellAt cells i).ty →
+  -- everything already pushed into the cell's own segment lies left of the current cell
+  have hleft : ∀ j ∈ a.rowCells.getD k0 [],
       (cellAt cells j).tx + (cellAt cells j).w ≤ (cellAt cells i).tx := by
-    intro k hk j hj hy
-    obtain ⟨hji, hsj⟩ := inv.mem k hk j hj
-    exact cellAt_pairwise cells ok.order j i hji hi (by rw [← hsj.1, hy])
+    intro j hj
+    obtain ⟨hji, hsj⟩ := inv.mem k0 hk0 j hj
+    have := cellAt_pairwise cells ok.order j i hji hi
+    exact this k0 hk0 hsj hseg
   obtain ⟨h0, C0, lo0, hr0, hnc0, hlo0⟩ := inv.leg k0 hk0
   have hlo : lo0 ≤ (cellAt cells i).tx := by
     rcases hlo0 with rfl | ⟨j, hj, rfl⟩
     · exact hseg.2.1
-    · exact hleft k0 hk0 j hj hseg.1
+    · exact hleft j hj
   have ctx : SearchCtx a.rows a.legs (cellAt cells i) k0 := by
     refine ⟨hk0, inv.llen, ok.sorted, ?_, ?_, hw, hseg.1, ⟨lo0, _, hnc0, hlo⟩, hseg.2.2.1, ?_, ?_⟩
     · intro k hk; rw [hH]; exact ok.heights _ (rowAt_mem _ k hk)
@@ -183,7 +185,7 @@ theorem loopInv_step (S : List Row) (H : Int) (cells : List LCell) (ok : IdemOK 
       intro j hj j' hj'
       have : j' = i := by simpa using hj'
       subst this
-      exact hleft k hk j hj hseg.1
+      exact hleft j hj
     · show ((a.rowCells.set k0 _).getD k []).Pairwise _
       rw [getD_set_ne _ _ _ _ _ (Ne.symm hkk)]
       exact inv.ord k hk
